@@ -419,7 +419,7 @@ def t8_one_critical_section(ck):
                 ck.req(any(ib in dom[bb] for ib in inner_blocks), "T8.held", nm, b.where(t["line"]), "the guard can be released before the table operation ran")
     # nobody holds two guards at once: at most one acquisition per body, engine-wide
     for b in ws_bodies(prog, ("weechess_engine",)):
-        locks = [(bb, t) for bb, t in live_calls(b) if is_lock_call(callee_name(t))]
+        locks = [(bb, t) for bb, t in live_calls(b) if is_lock_call(callee_name(t)) and "TranspositionTable" in " ".join(t.get("generics", []))]
         if len(locks) > 1:
             ck.fail("T8.nesting", b.name, b.where(), "%d lock acquisitions in one body: possible nested guards / lock order" % len(locks))
     f = ck.body(ACCESS + "::find", "T8")
